@@ -3,8 +3,8 @@
 
     Only statements; proofs are in [Queues/Proofs*.v]. *)
 From Irismod Require Import Queues.Common.
-From Irismod Require Queues.Htlc Queues.ProofsHtlc Queues.CheckHtlc Queues.SoundHtlc.
-From Irismod Require Queues.Random Queues.ProofsRandom Queues.CheckRandom Queues.SoundRandom.
+From Irismod Require Queues.Htlc Queues.ProofsHtlc Queues.CheckHtlc Queues.SoundHtlc Queues.PassHtlc.
+From Irismod Require Queues.Random Queues.ProofsRandom Queues.CheckRandom Queues.SoundRandom Queues.PassRandom.
 From Irismod Require Queues.Farm Queues.ProofsFarm Queues.CheckFarm Queues.SoundFarm Queues.PassFarm.
 From Irismod Require Queues.Service Queues.ProofsService Queues.CheckService Queues.SoundService Queues.PassService.
 
@@ -63,6 +63,15 @@ Theorem htlc_check_hygiene_clause_sound :
     Queues.CheckHtlc.hhyg (Queues.SoundHtlc.obs_of (run (init h0) ops)) = true.
 Proof. exact Queues.SoundHtlc.hygiene_clause_holds_on_every_history. Qed.
 Print Assumptions htlc_check_hygiene_clause_sound.
+
+(** The model passes its own check: for every clean history [check_htlc], fed the observations
+    the MODEL produces, returns (-1,-1,0) — no divergence, and none of the clauses 11 (abort),
+    12 (hygiene), 13 (refunded exactly at the expiration height; closed contracts never change). *)
+Theorem model_passes_check_htlc :
+  forall h0 ops, Forall op_clean ops ->
+    Queues.CheckHtlc.check_htlc (h0, Queues.PassHtlc.mtrace (init h0) ops) = (-1, -1, 0).
+Proof. exact Queues.PassHtlc.model_passes_check_htlc. Qed.
+Print Assumptions model_passes_check_htlc.
 
 (** non-vacuity: a history with two contracts due at one height, one claimed in the last
     possible block, one refunded *)
@@ -140,6 +149,14 @@ Theorem random_check_hygiene_clause_sound :
   forall h0 ops, Queues.CheckRandom.rhyg (Queues.SoundRandom.obs_of (run (init h0) ops)) = true.
 Proof. exact Queues.SoundRandom.hygiene_clause_holds_on_every_history. Qed.
 Print Assumptions random_check_hygiene_clause_sound.
+
+(** The model passes its own check, for EVERY history: [check_random] on the model's own trace
+    returns (-1,-1,0) — none of 21 (abort at a block time other than 0), 22 (hygiene; entries
+    vanish only in the block after their height), 23 (drained plain requests have their number). *)
+Theorem model_passes_check_random :
+  forall h0 ops, Queues.CheckRandom.check_random (h0, Queues.PassRandom.mtrace (init h0) ops) = (-1, -1, 0).
+Proof. exact Queues.PassRandom.model_passes_check_random. Qed.
+Print Assumptions model_passes_check_random.
 
 (** The interval guard (fix "random: reject a block interval ...") is what makes [r_future] hold: a request whose destination
     wraps below the current height is rejected. *)
